@@ -344,7 +344,7 @@ func c07(c *an.Check) {
 	}
 	// (e2) the header writer takes its length prefix from the generated SizeVT: that method sizes each field from the
 	// field itself
-	sizeVTSanity(c, func(rel string) bool { return rel == "transport/controller" })
+	pbCodecSanity(c, func(rel string) bool { return rel == "transport/controller" })
 	// (f) the lookup the bus actually performs is the one built for this stream: HandleMountedStream directives that differ
 	// in protocol id, local or remote peer are never merged into one lookup (EQUIV obligations of that directive, as in C37)
 	equivCheck(c, func(f *ssa.Function) bool { return strings.Contains(an.FuncName(f), "link.handleMountedStream") })
